@@ -53,7 +53,15 @@
    Because the sub-steps of an API call that touch no shared location are not in the log, the replay keeps the
    SET of model states consistent with the log so far (bounded; idle owners may start any sub-operation of the
    current call whose first atomic access matches); it reports `MISMATCH` when the set becomes empty, i.e.
-   when the model cannot perform the logged access with the same old and new abstract value. *)
+   when the model cannot perform the logged access with the same old and new abstract value.
+   mi_heap_delete (`A <tid> delete <heap>`) and mi_heap_new (`A <tid> newheap <heap>`) are NOT decomposed: the model
+   operation OpHeapDelete / OpHeapNew is started at the A line and every atomic access up to the R line must be a step
+   of its frames (HD2 / HD3 incl. the xheap store and the _mi_page_use_delayed_free spin / the two drains / HD4); the
+   order in which the pages are appended is a choice of the model (rotation transition, CAlt).
+   The STAT line ends with a histogram `hist=<transition>:<count>,...` of the model transitions on accepted paths
+   (transition = constructor of the stepping thread's top frame, `~alt` = taken with the choice CAlt, `spin` = inside
+   _mi_page_use_delayed_free; `start:<Op>` = sub-operation started by an idle owner; `op:<Op>` = operation named by an
+   A line), each counted once per log line on which some accepted path uses it. *)
 open BinNums
 open Util
 open TFree
@@ -466,16 +474,33 @@ let dedupe (l : cfg list) : cfg list =
   let l = L.sort_uniq compare l in
   if L.length l > max_cands then L.filteri (fun k _ -> k < max_cands) l else l
 
-(* all states thread t can reach by tau steps only (including the starting state), bounded *)
-let tau_closure (c : cfg) (t : coq_N) : cfg list =
+let fname = function
+  | RF1 _ -> "RF1" | RF2 _ -> "RF2" | RF3 _ -> "RF3" | RF4 _ -> "RF4" | RF5 _ -> "RF5" | RF6 _ -> "RF6" | RF7 _ -> "RF7"
+  | TU1 (_, _, _, sp, _) -> if sp then "TU1spin" else "TU1" | TU2 (_, _, _, sp, _, _, _) -> if sp then "TU2spin" else "TU2"
+  | TC1 _ -> "TC1" | TC2 _ -> "TC2" | TC3 _ -> "TC3" | FC1 _ -> "FC1" | FC2 _ -> "FC2"
+  | DP1 _ -> "DP1" | DP2 _ -> "DP2" | DP3 _ -> "DP3" | DP4 _ -> "DP4" | DP5 _ -> "DP5" | DP6 _ -> "DP6" | DA _ -> "DA" | PF _ -> "PF"
+  | HC2 _ -> "HC2" | HC3 _ -> "HC3" | HC4 _ -> "HC4" | HD2 _ -> "HD2" | HD3 _ -> "HD3" | HD4 _ -> "HD4"
+let opname = function
+  | OpHeapNew _ -> "HeapNew" | OpFresh _ -> "Fresh" | OpExtend _ -> "Extend" | OpPop _ -> "Pop" | OpFree _ -> "Free" | OpGive _ -> "Give"
+  | OpCollect _ -> "Collect" | OpToFull _ -> "ToFull" | OpPartial _ -> "Partial" | OpDelayedAll _ -> "DelayedAll" | OpPageFree _ -> "PageFree"
+  | OpHeapCollect _ -> "HeapCollect" | OpHeapDelete _ -> "HeapDelete" | OpNever _ -> "Never"
+let step_name (c : cfg) (t : coq_N) (ch : choice) : string =
+  match (gett c t).th_stk with
+  | f :: _ -> fname f ^ (if ch = CAlt && cstep c t CGo <> cstep c t CAlt then "~alt" else "")
+  | [] -> "idle"
+
+(* all states thread t can reach by tau steps only (including the starting state), bounded; with the names of the
+   transitions on one path to each *)
+let tau_closure_p (c : cfg) (t : coq_N) : (cfg * string list) list =
   let seen = ref [] in
-  let rec go c depth =
-    if depth > 64 || L.mem c !seen then () else begin
-      seen := c :: !seen;
+  let rec go c path depth =
+    if depth > 64 || L.mem_assoc c !seen then () else begin
+      seen := (c, path) :: !seen;
       if (gett c t).th_stk <> [] then
-        L.iter (fun ch -> match cstep c t ch with ROk (c', None) -> go c' (depth + 1) | _ -> ()) [CGo; CAlt]
+        L.iter (fun ch -> match cstep c t ch with ROk (c', None) -> go c' (step_name c t ch :: path) (depth + 1) | _ -> ()) [CGo; CAlt]
     end in
-  go c 0; !seen
+  go c [] 0; !seen
+let tau_closure (c : cfg) (t : coq_N) : cfg list = L.map fst (tau_closure_p c t)
 
 (* the operations an idle thread may start so that its first atomic access is at location (loc, id) *)
 let start_candidates (c : cfg) (t : coq_N) (call : string list) (st : lstep) : op list =
@@ -489,7 +514,8 @@ let start_candidates (c : cfg) (t : coq_N) (call : string list) (st : lstep) : o
      add (OpCollect (p, false)); add (OpCollect (p, true))
    | "del" ->
      let h = st.lid in
-     add (OpPartial h); add (OpDelayedAll h); add (OpHeapCollect (h, false)); add (OpHeapCollect (h, true)); add (OpHeapDelete h)
+     (* (mi_heap_delete is never a sub-operation: it is started by its A line) *)
+     add (OpPartial h); add (OpDelayedAll h); add (OpHeapCollect (h, false)); add (OpHeapCollect (h, true))
    | "heap" ->
      let p = st.lid in
      add (OpPageFree p);
@@ -508,6 +534,12 @@ let lockstep records mismatches =
   let lineno = ref 0 and steps = ref 0 and reported = ref 0 and inv_checked = ref 0 in
   let maxset = ref 1 in
   let progs = Buffer.create 256 in
+  let hist : (string, int) Hashtbl.t = Hashtbl.create 64 in
+  let line_names : (string, unit) Hashtbl.t = Hashtbl.create 16 in
+  let note names = L.iter (fun nm -> Hashtbl.replace line_names nm ()) names in
+  let commit_names ok =
+    if ok then Hashtbl.iter (fun nm () -> Hashtbl.replace hist nm (1 + (try Hashtbl.find hist nm with Not_found -> 0))) line_names;
+    Hashtbl.reset line_names in
   let fail msg =
     incr mismatches; incr reported;
     if !reported <= 10 then begin
@@ -516,13 +548,15 @@ let lockstep records mismatches =
     end in
   let update f what =
     let next = dedupe (L.concat_map f !cands) in
+    commit_names (next <> []);
     if next = [] then fail what else begin cands := next; if L.length next > !maxset then maxset := L.length next end in
   let check_inv () =
     incr inv_checked;
     let good = L.filter inv_b !cands in
     if good = [] then (match !cands with c :: _ -> fail (Printf.sprintf "inv_b part %d fails in every candidate state" (i (inv_fail c))) | [] -> ())
     else cands := good in
-  let apply_op (c : cfg) (t : coq_N) (o : op) : cfg list = match cstep c t (COp o) with ROk (c', _) -> [c'] | _ -> [] in
+  let apply_op (c : cfg) (t : coq_N) (o : op) : cfg list =
+    match cstep c t (COp o) with ROk (c', _) -> note ["op:" ^ opname o]; [c'] | _ -> [] in
   (* a hand-off is a ghost move between the programs: it does not depend on what the allocator is doing *)
   let give (c : cfg) (t : coq_N) (b : bid) (t' : coq_N) : cfg list =
     let th = gett c t in
@@ -597,7 +631,7 @@ let lockstep records mismatches =
         incr records;
         let t = n (int_of_string t) in
         Hashtbl.remove calls t;
-        update (fun c -> L.filter (fun c' -> (gett c' t).th_stk = []) (tau_closure c t))
+        update (fun c -> L.filter_map (fun (c', path) -> if (gett c' t).th_stk = [] then (note path; Some c') else None) (tau_closure_p c t))
           "the call returned but the model thread still has atomic steps to perform";
         check_inv ()
       | ["Q"] ->
@@ -609,22 +643,22 @@ let lockstep records mismatches =
         let st = { ltid = n (int_of_string t); lkind = kind; lloc = loc; lid = n (int_of_string id); lold = parse_val o; lnew = parse_val nw } in
         let t = st.ltid in
         let call = try Hashtbl.find calls t with Not_found -> [] in
-        let step_from (c : cfg) : cfg list =
+        let step_from (pre : string list) (c : cfg) : cfg list =
           (* the atomic steps available after tau steps *)
-          L.concat_map (fun c1 ->
+          L.concat_map (fun (c1, path) ->
             if (gett c1 t).th_stk = [] then []
             else L.concat_map (fun ch -> match cstep c1 t ch with
-                | ROk (c2, Some e) when event_matches e st -> [c2]
-                | _ -> []) [CGo; CAlt]) (tau_closure c t) in
+                | ROk (c2, Some e) when event_matches e st -> note (step_name c1 t ch :: path); note pre; [c2]
+                | _ -> []) [CGo; CAlt]) (tau_closure_p c t) in
         update (fun c ->
-          let direct = step_from c in
+          let direct = step_from [] c in
           let started =
-            L.concat_map (fun c1 ->
+            L.concat_map (fun (c1, path) ->
               if (gett c1 t).th_stk <> [] then []
               else L.concat_map (fun o -> match cstep c1 t (COp o) with
-                  | ROk (c2, Some e) when event_matches e st -> [c2]        (* the start itself is the access (Fresh) *)
-                  | ROk (c2, None) -> step_from c2
-                  | _ -> []) (start_candidates c1 t call st)) (tau_closure c t) in
+                  | ROk (c2, Some e) when event_matches e st -> note (("start:" ^ opname o) :: path); [c2]   (* the start itself is the access (Fresh) *)
+                  | ROk (c2, None) -> step_from (("start:" ^ opname o) :: path) c2
+                  | _ -> []) (start_candidates c1 t call st)) (tau_closure_p c t) in
           (* owner loads of xheap are not modelled *)
           let skipped =
             if st.lkind = "L" && st.lloc = "heap" && (getp c st.lid).pg_tid = t
@@ -636,7 +670,8 @@ let lockstep records mismatches =
     done
   with End_of_file -> ());
   if !dirty then check_inv ();
-  Printf.printf "STAT tfree-lockstep lines=%d atomic_steps=%d inv_b_checks=%d max_state_set=%d final_state_set=%d\n"
-    !lineno !steps !inv_checked !maxset (L.length !cands)
+  let hl = L.sort compare (Hashtbl.fold (fun k v acc -> (k, v) :: acc) hist []) in
+  Printf.printf "STAT tfree-lockstep lines=%d atomic_steps=%d inv_b_checks=%d max_state_set=%d final_state_set=%d hist=%s\n"
+    !lineno !steps !inv_checked !maxset (L.length !cands) (String.concat "," (L.map (fun (k, v) -> Printf.sprintf "%s:%d" k v) hl))
 
 let () = Modes.register "tfree-lockstep" lockstep
